@@ -14,6 +14,8 @@ pub(crate) fn parse_str<R: Read>(scanner: &mut Scanner<R>) -> Result<Str, Error>
     let mut str = Vec::new();
 
     while scanner.cur != b'"' {
+        #[cfg(feature = "verif-hooks")]
+        crate::haystack::verif_hooks::tick(crate::haystack::verif_hooks::SITE_LOOP);
         if scanner.is_eof {
             return scanner.make_generic_err("Expected '\"'");
         }
